@@ -163,9 +163,18 @@ Definition rewrite_text_across_inlines (f : str -> M str) (bs : list blk) : M (l
   mapM (mapM_blk (across_leaf f)) (coalesce_doc bs).
 
 (* ---- doc_cleanups: unbold headings ---- *)
+(* the while loop of the cleanup: bold inside bold inside ... is unwrapped completely.
+   [e] is a StrongEmphasis node; the result is the content of the innermost sole-child one *)
+Fixpoint unwrap_strong (e : inl) : list inl :=
+  match e with
+  | INode KStrong [INode KStrong _ as x] => unwrap_strong x
+  | INode KStrong cs => cs
+  | _ => [e]
+  end.
+
 Definition unbold_leaf (l : leaf) : leaf :=
   match l with
-  | LHeading sx lv [INode KStrong cs] => LHeading sx lv cs
+  | LHeading sx lv [INode KStrong _ as e] => LHeading sx lv (unwrap_strong e)
   | LHeading sx lv [INode KEmph [INode KStrong cs]] => LHeading sx lv [INode KEmph cs]
   | x => x
   end.
